@@ -124,6 +124,8 @@ type res02 struct {
 	eff      []Op // the operations actually performed (illegal reopens skipped)
 	cut      int  // with a violation: the number of leading operations that produced it
 	sig      sigState
+	faulted  map[int]bool // indices (in the case's ops) of the ops that returned the injected error and were retried
+	fired    int
 }
 
 func (r *res02) finalRoot() []byte {
@@ -165,6 +167,25 @@ func canonContents(m map[string][]byte) string {
 	return string(b)
 }
 
+func faultPrefix(r *res02) string {
+	if r.fired > 0 {
+		return "after an injected node database read error and retry: "
+	}
+	return ""
+}
+
+// withFaulted records on the description which armed ops returned the injected error.
+func withFaulted(c Case, r *res02) Case {
+	if len(r.faulted) == 0 {
+		return c
+	}
+	ops := append([]Op{}, c.Ops...)
+	for i := range ops {
+		ops[i].Faulted = r.faulted[i]
+	}
+	return c.withOps(ops)
+}
+
 // normalize02 makes the history end with a commit (a reopen may follow it).
 func normalize02(c Case) Case {
 	last := ""
@@ -186,20 +207,20 @@ func normalize02(c Case) Case {
 }
 
 func runC02(c Case) (res *res02) {
-	res = &res02{table: newHashTable(), ref: map[string][]byte{}, used: map[string]bool{}, stats: counts{}, dumpStr: "DNil"}
+	res = &res02{table: newHashTable(), ref: map[string][]byte{}, used: map[string]bool{}, stats: counts{}, dumpStr: "DNil", faulted: map[int]bool{}}
 	var e *env
 	var tree mkvs.Tree
 	at := -1 // index of the operation being performed
 	fail := func(kind, f string, a ...any) {
 		if res.viol == nil {
-			res.viol = &violation{kind: kind, what: fmt.Sprintf(f, a...)}
+			res.viol = &violation{kind: kind, what: faultPrefix(res) + fmt.Sprintf(f, a...)}
 			res.cut = at + 1
 			res.sig.snapshot(tree)
 		}
 	}
 	defer func() {
 		if p := recover(); p != nil {
-			res.viol = &violation{kind: "panic", what: fmt.Sprintf("implementation panicked: %v", p)}
+			res.viol = &violation{kind: "panic", what: faultPrefix(res) + fmt.Sprintf("implementation panicked: %v", p)}
 			res.cut = at + 1
 			res.sig.snapshot(tree)
 			debugStack()
@@ -215,7 +236,43 @@ func runC02(c Case) (res *res02) {
 		fail("error", "unexpected error: opening node database: %v", err)
 		return
 	}
-	tree = mkvs.New(nil, e.ndb, node.RootTypeState, treeOptions(c)...)
+	// the tree under test reads through treeDB; dumps and Finalize use the real database
+	treeDB := e.ndb
+	var fdb *faultDB
+	for _, o := range c.Ops {
+		if o.FaultK > 0 && e.ndb != nil {
+			fdb = &faultDB{NodeDB: e.ndb}
+			treeDB = fdb
+			break
+		}
+	}
+	tree = mkvs.New(nil, treeDB, node.RootTypeState, treeOptions(c)...)
+	// attempt performs one tree operation, with the fault armed when the op asks for it; an
+	// injected failure is recorded and the operation retried once without fault.
+	attempt := func(i int, o Op, f func() error) error {
+		if o.FaultK <= 0 || fdb == nil {
+			return f()
+		}
+		fdb.arm(o.FaultK)
+		res.stats.add("faults", "armed/"+o.K)
+		err := f()
+		fired := fdb.disarm()
+		switch {
+		case err != nil && fired && isInjected(err):
+			res.faulted[i] = true
+			res.fired++
+			res.stats.add("faults", "fired/"+o.K)
+			res.sig.scan(tree)
+			return f()
+		case err != nil:
+			return err
+		case fired:
+			res.stats.add("faults", "fired_but_op_succeeded/"+o.K)
+		default:
+			res.stats.add("faults", "not_reached/"+o.K)
+		}
+		return nil
+	}
 	version := uint64(0)
 	var lastRoot node.Root
 	justCommitted := false
@@ -260,7 +317,7 @@ func runC02(c Case) (res *res02) {
 		at = i
 		switch o.K {
 		case "ins":
-			if err = tree.Insert(ctx, nn(o.Key), nn(o.Val)); err != nil {
+			if err = attempt(i, o, func() error { return tree.Insert(ctx, nn(o.Key), nn(o.Val)) }); err != nil {
 				fail("error", "unexpected error: Insert: %v", err)
 				return
 			}
@@ -268,7 +325,7 @@ func runC02(c Case) (res *res02) {
 			res.sig.scan(tree)
 			justCommitted = false
 		case "rem":
-			if err = tree.Remove(ctx, nn(o.Key)); err != nil {
+			if err = attempt(i, o, func() error { return tree.Remove(ctx, nn(o.Key)) }); err != nil {
 				fail("error", "unexpected error: Remove: %v", err)
 				return
 			}
@@ -361,7 +418,7 @@ func runC02(c Case) (res *res02) {
 				continue // not legal here (only produced by shrinking): skipped
 			}
 			tree.Close()
-			tree = mkvs.NewWithRoot(nil, e.ndb, lastRoot, treeOptions(c)...)
+			tree = mkvs.NewWithRoot(nil, treeDB, lastRoot, treeOptions(c)...)
 			res.reopens++
 		default:
 			fail("error", "unexpected error: unknown operation %q", o.K)
@@ -623,6 +680,108 @@ func twinWriteLog(r *prng.R, base Case, br *res02) Case {
 	return finish02(r, c)
 }
 
+// share of the eligible base cases that get a fault twin
+const faultTwinPct = 25
+
+// faultEligible: a database-backed base with a commit that is followed by further mutations.
+func faultEligible(base Case) bool {
+	if !base.isDB() {
+		return false
+	}
+	committed := false
+	for _, o := range base.Ops {
+		switch o.K {
+		case "commit":
+			committed = true
+		case "ins", "rem", "applywl":
+			if committed {
+				return true
+			}
+		}
+	}
+	return false
+}
+
+// twinFault: the base's operations (write logs split into single operations)
+// on a fresh tree with ample capacities over a fault-injecting node database;
+// 1-3 mutations after a commit get the fault armed (k-th GetNode of the op
+// fails once, k in 1..3) and are retried when it fires. The tree is reopened
+// after a commit before every faulted op so that its path has to be fetched.
+func twinFault(r *prng.R, base Case) Case {
+	c := Case{Mode: "c02", Backend: base.Backend, NodeCap: 5000, ValueCap: 16777216, TwinKind: "fault"}
+	var ops []Op
+	for _, o := range base.Ops {
+		switch o.K {
+		case "applywl":
+			for _, en := range o.Entries {
+				if en.Val == nil {
+					ops = append(ops, Op{K: "rem", Key: en.Key})
+				} else {
+					ops = append(ops, Op{K: "ins", Key: en.Key, Val: en.Val})
+				}
+			}
+		case "reopen":
+			// placed anew below
+		default:
+			ops = append(ops, o)
+		}
+	}
+	// candidate targets: mutations after the first commit
+	var cands []int
+	committed := false
+	for i, o := range ops {
+		if o.K == "commit" {
+			committed = true
+		} else if committed {
+			cands = append(cands, i)
+		}
+	}
+	targets := map[int]int{} // op index -> k
+	for j, m := 0, r.Range(1, 3); j < m && len(cands) > 0; j++ {
+		targets[cands[r.Intn(len(cands))]] = r.Range(1, 3)
+	}
+	// reopen points: for every target either directly before it (an extra commit
+	// + reopen: the whole path is cold) or after the nearest commit before it
+	// (partially cached tree)
+	reopenAfter := map[int]bool{}  // after ops[i], which is a commit
+	commitBefore := map[int]bool{} // extra commit + reopen directly before ops[i]
+	var tlist []int
+	for t := range targets {
+		tlist = append(tlist, t)
+	}
+	sort.Ints(tlist)
+	for _, t := range tlist {
+		last := -1
+		for i := 0; i < t; i++ {
+			if ops[i].K == "commit" {
+				last = i
+			}
+		}
+		if last >= 0 && last != t-1 && r.Chance(50) {
+			reopenAfter[last] = true
+		} else if last == t-1 {
+			reopenAfter[last] = true
+		} else {
+			commitBefore[t] = true
+		}
+	}
+	var out []Op
+	for i, o := range ops {
+		if commitBefore[i] {
+			out = append(out, Op{K: "commit"}, Op{K: "reopen"})
+		}
+		if k, ok := targets[i]; ok {
+			o.FaultK = k
+		}
+		out = append(out, o)
+		if reopenAfter[i] {
+			out = append(out, Op{K: "reopen"})
+		}
+	}
+	c.Ops = out
+	return normalize02(c)
+}
+
 // ---------- shrinking ----------
 
 // shrink02 greedily drops operations while the case still fails and accept
@@ -705,6 +864,7 @@ type session02 struct {
 // (-1 when the case could not be emitted).
 func (s *session02) process(c Case, base *Case, br *res02) (*res02, int) {
 	r := runC02(c)
+	c = withFaulted(c, r)
 	s.sum.Evaluations++
 	idx := -1
 	if !r.panicked && (r.viol == nil || r.viol.kind != "error") {
@@ -779,6 +939,7 @@ func (s *session02) process(c Case, base *Case, br *res02) (*res02, int) {
 			})
 			if r2 := runC02(sc); r2.viol != nil {
 				what = r2.viol.what
+				sc = withFaulted(sc, r2)
 			}
 		}
 		v := map[string]any{"what": what, "case": sc, "evicting_config": evicting(vc),
@@ -899,7 +1060,15 @@ func mainC02(seed uint64, n int, out string, rp *replayInput) {
 		cr := r.Fork()
 		base := genC02(cr)
 		br, bidx := s.process(base, nil, nil)
-		if bidx < 0 || br.viol != nil || !cr.Chance(60) {
+		if bidx < 0 || br.viol != nil {
+			continue
+		}
+		if faultEligible(base) && cr.Chance(faultTwinPct) && s.w.Total < n {
+			twin := twinFault(cr, base)
+			twin.TwinOf = bidx
+			s.process(twin, &base, br)
+		}
+		if !cr.Chance(60) {
 			continue
 		}
 		for i, m := 0, cr.Range(1, 2); i < m && s.w.Total < n; i++ {
